@@ -1229,6 +1229,8 @@ def fam_rayon_mmap(rng):
                                                           "/sys/kernel/notes")]
     # unseekable sources (named pipes fed by a writer thread) around the mapping threshold
     out += [{"kind": "mmap_special", "path": "fifo:%d" % n} for n in (0, 1, 16383, 16384, 16385, 70000)]
+    # block devices (loop device over a scratch file: needs root + losetup, skipped by the driver otherwise)
+    out += [{"kind": "mmap_special", "path": "loop:%d" % n} for n in (1048576, 65536)]
     mi = 0
     for n in (0, 1, 1025, 16383, 16384, 16385, 32769, 70001, 131073, 200000):
         for via in ("rayon", "mmap", "mmap_rayon"):
